@@ -933,3 +933,297 @@ Proof.
   split; [exact W|]. split; [exact P|]. split; [|exact F].
   rewrite G. unfold step_self. rewrite Ea. reflexivity.
 Qed.
+
+(** the side condition on group ids follows from the configuration gate [assert_app] *)
+Theorem assert_app_group_ids c a : assert_app c = true -> In a (c_args c) ->
+  forall x, ~ In (a_id a) (groups_for_arg c x).
+Proof.
+  intros H Hin x Hg. unfold assert_app in H.
+  repeat (apply andb_prop in H; destruct H as [H ?]).
+  match goal with Hgr : forallb _ (c_groups c) = true |- _ => rename Hgr into HG end.
+  unfold groups_for_arg in Hg. apply in_map_iff in Hg. destruct Hg as [g [Eg Hgin]].
+  apply filter_In in Hgin. destruct Hgin as [Hgin _].
+  rewrite forallb_forall in HG. specialize (HG g Hgin).
+  repeat (apply andb_prop in HG; destruct HG as [HG ?]).
+  match goal with Hn : negb (is_some (find_arg c (g_id g))) = true |- _ => rename Hn into HN end.
+  rewrite Eg in HN. unfold find_arg in HN.
+  destruct (List.find (fun a0 => beq (a_id a0) (a_id a)) (c_args c)) eqn:Ef; [discriminate|].
+  pose proof (find_none _ _ Ef a Hin) as Hx. cbn beta in Hx. rewrite beq_refl in Hx. discriminate.
+Qed.
+
+(** * 6. Sequences of occurrences *)
+Record occ := mkOcc { o_ident : option ident; o_src : src; o_arg : arg; o_raw : list bytes; o_ti : option N }.
+
+(** what [Parser::parse] does with a sequence of occurrences: one [react] each, in order *)
+Fixpoint react_all (c : cmd) (os : list occ) (st : ps) : res ps :=
+  match os with
+  | [] => ROk st
+  | o :: t => do x <- react c (o_ident o) (o_src o) (o_arg o) (o_raw o) (o_ti o) st; react_all c t (fst x)
+  end.
+
+Lemma react_no_pending c idn s a raw ti st : mt_pending (mt st) = None ->
+  react c idn s a raw ti st = react_core c idn s a raw ti st.
+Proof. intros H. unfold react, resolve_pending. rewrite H. reflexivity. Qed.
+
+(** the abstract per-argument fold: what one occurrence [o] does to the stored groups of argument [i] *)
+Definition o_vals (c : cmd) (o : occ) : list bytes := opt_default [] (occ_values c (o_arg o) (o_raw o) (o_ti o)).
+Definition step_abs (c : cmd) (i : id) (prev : option groups) (o : occ) : option groups :=
+  if beq (a_id (o_arg o)) i
+  then Some (step_self c (o_src o) (o_arg o) (o_vals c o) prev)
+  else if is_cmdline (o_src o) && overridden c (o_arg o) i then None else prev.
+
+Definition no_group_clash (c : cmd) (i : id) (o : occ) : Prop :=
+  ~ In (a_id (o_arg o)) (groups_for_arg c (a_id (o_arg o))) /\ ~ In i (groups_for_arg c (a_id (o_arg o))).
+
+(** Refinement: for every argument id [i], any successful sequence of occurrences leaves in the
+    matcher exactly what the abstract fold computes. *)
+Theorem react_all_denote c i : forall os st st',
+  wf_m (mt st) -> mt_pending (mt st) = None -> Forall (no_group_clash c i) os ->
+  react_all c os st = ROk st' ->
+  groups_of i (mt st') = fold_left (step_abs c i) os (groups_of i (mt st)) /\
+  wf_m (mt st') /\ mt_pending (mt st') = None.
+Proof.
+  induction os as [|o os IH]; intros st st' Hwf Hp Hall H; cbn [react_all fold_left] in *.
+  - inversion H; subst. repeat split; assumption.
+  - inversion Hall as [|? ? [Hc1 Hc2] Hall']; subst.
+    rewrite react_no_pending in H by exact Hp.
+    destruct (react_core c (o_ident o) (o_src o) (o_arg o) (o_raw o) (o_ti o) st) as [[st1 pr]|e st1|site] eqn:E;
+      cbn [rbind fst] in H; try discriminate.
+    destruct (react_core_spec _ _ _ _ _ _ _ _ _ Hwf Hc1 E) as [vals [Ho [W [P [G [F _]]]]]].
+    rewrite Hp in P.
+    destruct (IH st1 st' W P Hall' H) as [R [W' P']].
+    split; [|split; assumption]. rewrite R. f_equal.
+    unfold step_abs, o_vals. rewrite Ho. cbn [opt_default].
+    destruct (beq (a_id (o_arg o)) i) eqn:Ei.
+    + apply beq_eq in Ei. subst i. exact G.
+    + apply beq_neq in Ei. unfold groups_of. rewrite F; [|congruence|exact Hc2].
+      destruct (is_cmdline (o_src o) && overridden c (o_arg o) i); reflexivity.
+Qed.
+
+(** ** corollaries about the abstract fold *)
+(** [o] is neither an occurrence of [i] nor of an argument in an override relation with [i] *)
+Definition unrelated (c : cmd) (i : id) (o : occ) : Prop :=
+  beq (a_id (o_arg o)) i = false /\ is_cmdline (o_src o) && overridden c (o_arg o) i = false.
+Fixpoint count_occ (i : id) (os : list occ) : nat :=
+  match os with [] => O | o :: t => (if beq (a_id (o_arg o)) i then 1 else 0) + count_occ i t end.
+
+Lemma step_abs_unrelated c i prev o : unrelated c i o -> step_abs c i prev o = prev.
+Proof. intros [H1 H2]. unfold step_abs. rewrite H1, H2. reflexivity. Qed.
+
+(** Count: n occurrences, interleaved with anything unrelated, for ALL n *)
+Lemma abs_count c a : a_get_action a = ACount -> a_default_missing a = [] ->
+  forall os k, Forall (fun o => (o_arg o = a /\ o_raw o = []) \/ unrelated c (a_id a) o) os ->
+  fold_left (step_abs c (a_id a)) os (enc k) = enc (k + N.of_nat (count_occ (a_id a) os)).
+Proof.
+  intros Ea Edm. induction os as [|o os IH]; intros k Hall; cbn [fold_left count_occ].
+  - f_equal. lia.
+  - inversion Hall as [|? ? Ho Hall']; subst. destruct Ho as [[Eo Er]|Hu].
+    + unfold step_abs at 2. rewrite Eo, beq_refl. unfold o_vals. rewrite Eo, Er, occ_values_nil by exact Edm.
+      cbn [opt_default]. unfold step_self. rewrite Ea. rewrite enc_succ, IH by exact Hall'. f_equal. lia.
+    + rewrite step_abs_unrelated by exact Hu. destruct Hu as [Hu _]. rewrite Hu, IH by exact Hall'. f_equal.
+Qed.
+
+(** Append: all occurrences' values, in command-line order, one group each *)
+Definition occ_groups (c : cmd) (i : id) (os : list occ) : groups :=
+  flat_map (fun o => if beq (a_id (o_arg o)) i then [o_vals c o] else []) os.
+
+Lemma abs_append c a : a_get_action a = AAppend ->
+  forall os prev,
+  Forall (fun o => (o_arg o = a /\ is_cmdline (o_src o) && overridden c a (a_id a) = false) \/ unrelated c (a_id a) o) os ->
+  opt_default [] (fold_left (step_abs c (a_id a)) os prev) = opt_default [] prev ++ occ_groups c (a_id a) os /\
+  (is_some prev = true \/ (0 < count_occ (a_id a) os)%nat -> is_some (fold_left (step_abs c (a_id a)) os prev) = true).
+Proof.
+  intros Ea. induction os as [|o os IH]; intros prev Hall; cbn [fold_left occ_groups flat_map count_occ].
+  - rewrite app_nil_r. split; [reflexivity|]. intros [H|H]; [exact H|lia].
+  - inversion Hall as [|? ? Ho Hall']; subst. destruct Ho as [[Eo Er]|Hu].
+    + unfold step_abs at 2 4. rewrite Eo, beq_refl. unfold step_self. rewrite Ea. unfold own_prev. rewrite Er.
+      destruct (IH (Some (opt_default [] prev ++ [o_vals c o])) Hall') as [I1 I2].
+      split; [etransitivity; [exact I1|]; cbn [opt_default]; rewrite <- app_assoc; reflexivity|].
+      intros _. apply I2. left. reflexivity.
+    + rewrite step_abs_unrelated by exact Hu. destruct Hu as [Hu _]. rewrite Hu. cbn [app plus]. apply IH. exact Hall'.
+Qed.
+
+(** Set / SetTrue / SetFalse: the last occurrence decides, whatever came before *)
+Lemma fold_unrelated c i os : Forall (unrelated c i) os -> forall prev, fold_left (step_abs c i) os prev = prev.
+Proof.
+  induction os as [|o os IH]; intros Hall prev; [reflexivity|]. inversion Hall; subst.
+  cbn [fold_left]. rewrite step_abs_unrelated by assumption. apply IH. assumption.
+Qed.
+
+Lemma abs_last_wins c a os1 o os2 prev : set_family a = true -> o_arg o = a ->
+  Forall (unrelated c (a_id a)) os2 ->
+  fold_left (step_abs c (a_id a)) (os1 ++ o :: os2) prev = Some (step_self c (o_src o) a (o_vals c o) None).
+Proof.
+  intros Hf Eo Hall. rewrite fold_left_app. cbn [fold_left]. rewrite fold_unrelated by exact Hall.
+  unfold step_abs. rewrite Eo, beq_refl. f_equal. unfold step_self, set_family in *.
+  destruct (a_get_action a); try discriminate; reflexivity.
+Qed.
+
+(** Overrides: after a command-line occurrence of an argument related to [i] (either direction),
+    [i] holds nothing until it occurs again - the later-given one is what remains *)
+Lemma fold_absent c i os : Forall (fun o => beq (a_id (o_arg o)) i = false) os ->
+  fold_left (step_abs c i) os None = None.
+Proof.
+  induction os as [|o os IH]; intros Hall; [reflexivity|]. inversion Hall as [|? ? Ho Hall']; subst.
+  cbn [fold_left]. unfold step_abs at 2. rewrite Ho.
+  destruct (is_cmdline (o_src o) && overridden c (o_arg o) i); apply IH; exact Hall'.
+Qed.
+
+Lemma abs_override_later_wins c i os1 o os2 prev :
+  beq (a_id (o_arg o)) i = false -> o_src o = SCmdLine -> overridden c (o_arg o) i = true ->
+  Forall (fun o' => beq (a_id (o_arg o')) i = false) os2 ->
+  fold_left (step_abs c i) (os1 ++ o :: os2) prev = None.
+Proof.
+  intros Hb Hs Ho Hall. rewrite fold_left_app. cbn [fold_left]. unfold step_abs at 2.
+  rewrite Hb, Hs, Ho. cbn [is_cmdline andb]. apply fold_absent. exact Hall.
+Qed.
+
+(** ** the same, stated on [react_all] *)
+Theorem count_saturates c a os st st' :
+  a_get_action a = ACount -> a_default_missing a = [] ->
+  wf_m (mt st) -> mt_pending (mt st) = None -> groups_of (a_id a) (mt st) = None ->
+  Forall (no_group_clash c (a_id a)) os ->
+  Forall (fun o => (o_arg o = a /\ o_raw o = []) \/ unrelated c (a_id a) o) os ->
+  react_all c os st = ROk st' ->
+  groups_of (a_id a) (mt st') = enc (N.of_nat (count_occ (a_id a) os)).
+Proof.
+  intros Ea Edm Hwf Hp Hg Hc Hall H.
+  destruct (react_all_denote c (a_id a) os st st' Hwf Hp Hc H) as [R _].
+  rewrite R, Hg. change None with (enc 0). rewrite (abs_count c a Ea Edm os 0 Hall). reflexivity.
+Qed.
+
+(** n occurrences of a built Count flag never fail, from any state holding the abstract counter k *)
+Theorem count_total c a idn s ti : count_flag a -> ~ In (a_id a) (groups_for_arg c (a_id a)) ->
+  forall n st k, wf_m (mt st) -> mt_pending (mt st) = None -> groups_of (a_id a) (mt st) = enc k ->
+  exists st', react_all c (repeat (mkOcc idn s a [] ti) n) st = ROk st' /\
+    wf_m (mt st') /\ mt_pending (mt st') = None /\
+    groups_of (a_id a) (mt st') = enc (k + N.of_nat n).
+Proof.
+  intros Hcf Hng. induction n as [|n IH]; intros st k Hwf Hp Hg; cbn [repeat react_all].
+  - exists st. repeat split; try assumption. rewrite Hg. f_equal. lia.
+  - cbn [o_ident o_src o_arg o_raw o_ti]. rewrite react_no_pending by exact Hp.
+    destruct (count_step c idn s a ti st Hwf Hng Hcf) as [st1 [E [W [P [G _]]]]].
+    rewrite E. cbn [rbind fst]. rewrite Hp in P. rewrite Hg, enc_succ in G.
+    destruct (IH st1 (k + 1) W P G) as [st' [E' [W' [P' G']]]].
+    exists st'. split; [exact E'|]. split; [exact W'|]. split; [exact P'|]. rewrite G'. f_equal. lia.
+Qed.
+
+Theorem append_all_in_order c a os st st' :
+  a_get_action a = AAppend ->
+  wf_m (mt st) -> mt_pending (mt st) = None ->
+  Forall (no_group_clash c (a_id a)) os ->
+  Forall (fun o => (o_arg o = a /\ is_cmdline (o_src o) && overridden c a (a_id a) = false) \/ unrelated c (a_id a) o) os ->
+  react_all c os st = ROk st' ->
+  opt_default [] (groups_of (a_id a) (mt st')) = opt_default [] (groups_of (a_id a) (mt st)) ++ occ_groups c (a_id a) os /\
+  ((0 < count_occ (a_id a) os)%nat -> is_some (groups_of (a_id a) (mt st')) = true).
+Proof.
+  intros Ea Hwf Hp Hc Hall H.
+  destruct (react_all_denote c (a_id a) os st st' Hwf Hp Hc H) as [R _].
+  rewrite R. destruct (abs_append c a Ea os (groups_of (a_id a) (mt st)) Hall) as [A1 A2].
+  split; [exact A1|]. intros Hn. apply A2. right. exact Hn.
+Qed.
+
+Theorem set_last_occurrence_wins c a os1 o os2 st st' :
+  set_family a = true -> o_arg o = a ->
+  wf_m (mt st) -> mt_pending (mt st) = None ->
+  Forall (no_group_clash c (a_id a)) (os1 ++ o :: os2) -> Forall (unrelated c (a_id a)) os2 ->
+  react_all c (os1 ++ o :: os2) st = ROk st' ->
+  groups_of (a_id a) (mt st') = Some (step_self c (o_src o) a (o_vals c o) None).
+Proof.
+  intros Hf Eo Hwf Hp Hc Hall H.
+  destruct (react_all_denote c (a_id a) _ st st' Hwf Hp Hc H) as [R _].
+  rewrite R. apply abs_last_wins; assumption.
+Qed.
+
+Theorem override_later_wins c i os1 o os2 st st' :
+  beq (a_id (o_arg o)) i = false -> o_src o = SCmdLine -> overridden c (o_arg o) i = true ->
+  wf_m (mt st) -> mt_pending (mt st) = None ->
+  Forall (no_group_clash c i) (os1 ++ o :: os2) ->
+  Forall (fun o' => beq (a_id (o_arg o')) i = false) os2 ->
+  react_all c (os1 ++ o :: os2) st = ROk st' ->
+  groups_of i (mt st') = None.
+Proof.
+  intros Hb Hs Ho Hwf Hp Hc Hall H.
+  destruct (react_all_denote c i _ st st' Hwf Hp Hc H) as [R _].
+  rewrite R. apply abs_override_later_wins; assumption.
+Qed.
+
+Theorem count_decimal k : k <= 255 ->
+  parse_i64 (n_to_dec k) = Some (Z.of_N k) /\ vp_parse VPCount (n_to_dec k) = None /\ count_of (enc k) = k.
+Proof. intros H. split; [exact (dec_roundtrip k H)|]. split; [exact (dec_accept k H)|]. rewrite count_of_enc. lia. Qed.
+
+Theorem default_only_when_absent c a st :
+  a_default_ifs a = [] ->
+  (mt_contains (mt st) (a_id a) = true -> add_default_value c a st = ROk st) /\
+  (a_default a <> [] -> mt_contains (mt st) (a_id a) = false ->
+   add_default_value c a st = (do x <- react c None SDefault a (a_default a) None st; ROk (fst x))).
+Proof.
+  intros Hi. split; [exact (add_default_value_present c a st Hi)|exact (add_default_value_absent c a st Hi)].
+Qed.
+
+(** * Non-vacuity: a concrete command on which every hypothesis above is satisfiable *)
+Module Examples.
+  (** prog -v (Count) -q (SetTrue) -n (SetFalse) --opt <v> (Append) --set <v> (Set, overrides itself and q)
+      --uniq <v> (Set), -x (SetTrue, overrides v) *)
+  Definition v : arg := arg_build ((arg_new [118]) <| a_short := Some 118 |> <| a_action := Some ACount |>).
+  Definition q : arg := arg_build ((arg_new [113]) <| a_short := Some 113 |> <| a_action := Some ASetTrue |>).
+  Definition n : arg := arg_build ((arg_new [110]) <| a_short := Some 110 |> <| a_action := Some ASetFalse |>).
+  Definition opt : arg := arg_build ((arg_new [111]) <| a_long := Some [111; 112; 116] |> <| a_action := Some AAppend |>
+                                       <| a_num := Some {| vmin := 1; vmax := 3 |} |>).
+  Definition set : arg := arg_build ((arg_new [115]) <| a_long := Some [115; 101; 116] |> <| a_action := Some ASet |>
+                                       <| a_overrides := [[115]; [113]] |>).
+  Definition uniq : arg := arg_build ((arg_new [117]) <| a_long := Some [117] |> <| a_action := Some ASet |>).
+  Definition x : arg := arg_build ((arg_new [120]) <| a_short := Some 120 |> <| a_action := Some ASetTrue |>
+                                     <| a_overrides := [[118]] |>).
+  Definition c : cmd := (cmd_new [112]) <| c_args := [v; q; n; opt; set; uniq; x] |>.
+  Definition o (a : arg) (raw : list bytes) := mkOcc (Some IShort) SCmdLine a raw None.
+  Definition run (os : list occ) := react_all c os ps_new.
+  Definition groups_after (i : id) (os : list occ) : option (option groups) :=
+    match run os with ROk st => Some (groups_of i (mt st)) | _ => None end.
+
+  Example count_flag_v : count_flag v.
+  Proof. repeat split; reflexivity. Qed.
+  Example no_clash : forall a, In a (c_args c) -> groups_for_arg c (a_id a) = [].
+  Proof. intros a H. reflexivity. Qed.
+  (** 0, 1, 255, 256, 300 occurrences of -v *)
+  Example count_0 : groups_after [118] [] = Some None. Proof. reflexivity. Qed.
+  Example count_1 : groups_after [118] [o v []] = Some (Some [[[49]]]). Proof. vm_compute. reflexivity. Qed.
+  Example count_255 : groups_after [118] (repeat (o v []) 255) = Some (Some [[[50; 53; 53]]]). Proof. vm_compute. reflexivity. Qed.
+  Example count_256 : groups_after [118] (repeat (o v []) 256) = Some (Some [[[50; 53; 53]]]). Proof. vm_compute. reflexivity. Qed.
+  Example count_300_interleaved :
+    groups_after [118] (flat_map (fun _ => [o v []; o opt [[119]]]) (seq 0 300)) = Some (Some [[[50; 53; 53]]]).
+  Proof. vm_compute. reflexivity. Qed.
+  (** -q is unrelated to v; -x overrides v: a later -x removes v, a later -v removes x *)
+  Example unrelated_q : unrelated c [118] (o q []).
+  Proof. split; reflexivity. Qed.
+  Example overridden_both_directions : overridden c x [118] = true /\ overridden c v [120] = true.
+  Proof. split; reflexivity. Qed.
+  Example override_v_then_x : groups_after [118] [o v []; o v []; o x []] = Some None /\
+                              groups_after [120] [o v []; o v []; o x []] = Some (Some [[s_true]]).
+  Proof. split; vm_compute; reflexivity. Qed.
+  Example override_x_then_v : groups_after [120] [o x []; o v []] = Some None /\
+                              groups_after [118] [o x []; o v []] = Some (Some [[[49]]]).
+  Proof. split; vm_compute; reflexivity. Qed.
+  (** Append keeps order and boundaries *)
+  Example append_order : groups_after [111] [o opt [[97]]; o q []; o opt [[98]; [99]]] = Some (Some [[[97]]; [[98]; [99]]]).
+  Proof. vm_compute. reflexivity. Qed.
+  (** Set: self-override -> last wins; without -> ArgumentConflict *)
+  Example set_last : groups_after [115] [o set [[97]]; o set [[98]]] = Some (Some [[[98]]]).
+  Proof. vm_compute. reflexivity. Qed.
+  Example set_conflict :
+    match run [o uniq [[97]]; o uniq [[98]]] with RErr e _ => e_kind e = EArgumentConflict | _ => False end.
+  Proof. vm_compute. reflexivity. Qed.
+  Example conflict_hypotheses :
+    exists st, run [o uniq [[97]]] = ROk st /\ set_family uniq = true /\
+      verify_num_args c uniq [[98]] st = ROk tt /\ occ_values c uniq [[98]] None = Some [[98]] /\
+      mt_contains (mt st) (a_id uniq) = true /\ is_set s_args_override_self c = false /\
+      mem_id (a_id uniq) (a_overrides uniq) = false.
+  Proof. eexists. split; [vm_compute; reflexivity|]. repeat split; reflexivity. Qed.
+  (** flags: value on occurrence, opposite default from Arg::_build *)
+  Example flag_q : groups_after [113] [o q []] = Some (Some [[s_true]]) /\ a_default q = [s_false].
+  Proof. split; vm_compute; reflexivity. Qed.
+  Example flag_n : groups_after [110] [o n []] = Some (Some [[s_false]]) /\ a_default n = [s_true].
+  Proof. split; vm_compute; reflexivity. Qed.
+  Example well_formed_start : wf_m (mt ps_new) /\ mt_pending (mt ps_new) = None.
+  Proof. split; [apply wf_m_new|reflexivity]. Qed.
+End Examples.
